@@ -1,0 +1,1 @@
+//! Hooks owned by property C16 (feature `verif-hooks`).
